@@ -620,13 +620,13 @@ func simulate(r *core.R) {
 	wFeed := src.Range(3, 40, "feed_weight")
 	wTime := src.Range(3, 30, "time_weight")
 	// fault weights: index 0 = off
-	wStall := []int{0, 3, 8}[src.Intn(3, "stall_rate")]
-	wReset := []int{0, 2, 5}[src.Intn(3, "reset_rate")]
-	wCut := []int{0, 1, 3}[src.Intn(3, "half_open_rate")]
+	wStall := []int{0, 4, 10}[src.Intn(3, "stall_rate")]
+	wReset := []int{0, 3, 7}[src.Intn(3, "reset_rate")]
+	wCut := []int{0, 2, 4}[src.Intn(3, "half_open_rate")]
 	pRefuse := []int{0, 150, 500}[src.Intn(3, "refuse_rate")]
 	pBlackhole := []int{0, 0, 150}[src.Intn(3, "dial_blackhole_rate")]
-	wGovern := []int{0, 1, 2}[src.Intn(3, "governor_rate")]
-	wChurn := []int{0, 1, 3}[src.Intn(3, "client_churn_rate")]
+	wGovern := []int{0, 2, 4}[src.Intn(3, "governor_rate")]
+	wChurn := []int{0, 2, 5}[src.Intn(3, "client_churn_rate")]
 	pFragment := []int{0, 300, 800}[src.Intn(3, "fragment_rate")]
 	pFinite := []int{0, 400, 900}[src.Intn(3, "finite_buffer_rate")]
 	pSlowCB := []int{0, 200, 600}[src.Intn(3, "slow_callback_rate")]
@@ -1094,7 +1094,7 @@ func simulate(r *core.R) {
 	slotDraw := func(label string) *slot { return h.slots[src.Intn(len(h.slots), label)] }
 	lag := 5*h.maxFallBehind/2 + h.grace
 	acts := []action{
-		{60, func() { // sweep
+		{40, func() { // sweep
 			frag := 0
 			if src.Chance(pFragment, "sched_fragment") {
 				frag = src.Range(1, 7, "sched_chunk_eighths")
@@ -1112,7 +1112,7 @@ func simulate(r *core.R) {
 				deliverOne(ps, d, frag)
 			}
 		}},
-		{25, func() { // decide the oldest pending dial
+		{30, func() { // decide the oldest pending dial
 			refuse := src.Chance(pRefuse, "refuse")
 			blackhole := src.Chance(pBlackhole, "dial_blackhole")
 			pend := h.net.Pending()
@@ -1140,7 +1140,7 @@ func simulate(r *core.R) {
 			advance(d)
 		}},
 		{wFeed, feedBurst},
-		{8, func() { // (re)start a client in a free slot
+		{20, func() { // (re)start a client in a free slot
 			s := slotDraw("start_slot")
 			if alive(s.cur) {
 				r.Logf("start client: slot %d is busy", s.id)
